@@ -477,6 +477,8 @@ class VirtualFileSystem(FileSystem[str]):
         if folder == '.':
             # normpath() turns the blank root folder into this.
             folder = ''
+        elif not folder.endswith('/'):
+            folder += '/'  # Only match whole folder names.
 
         # Compare the cleaned keys, the original filenames haven't been casefolded.
         for key, (filename, data) in self._mapping.items():
@@ -592,7 +594,9 @@ class ZipFileSystem(FileSystem[ZipInfo]):
     def walk_folder(self, folder: str = '') -> Iterator[File[Self]]:
         """Yield files in a folder."""
         # \\ is not allowed in zips.
-        folder = folder.replace('\\', '/').casefold()
+        folder = folder.replace('\\', '/').casefold().rstrip('/')
+        if folder:
+            folder += '/'  # Only match whole folder names.
         for filename, fileinfo in self._name_to_info.items():
             if filename.startswith(folder):
                 yield File(self, fileinfo.filename, fileinfo)
@@ -672,9 +676,11 @@ class VPKFileSystem(FileSystem[VPKFile]):
     def walk_folder(self, folder: str = '') -> Iterator[File[Self]]:
         """Yield files in a folder."""
         # All VPK files use forward slashes.
-        folder = folder.replace('\\', '/')
-        for file in self._name_to_file.values():
-            if file.dir.startswith(folder):
+        folder = folder.replace('\\', '/').casefold().rstrip('/')
+        if folder:
+            folder += '/'  # Only match whole folder names.
+        for filename, file in self._name_to_file.items():
+            if filename.startswith(folder):
                 yield File(self, file.filename, file)
 
     def open_bin(self, name: Union[str, File[Self]]) -> BinaryIO:
